@@ -4,12 +4,14 @@
 
    Models: Model/Lexer.v (utils/reader.go + types/lexer.go), Model/Parser.v (types/parser.go +
    types/basiccollector.go), Model/Resolve.v (of the resolve stage: the positional creator of Enum,
-   types/enumtype.go, and the name test of deferred.Resolve, types/deferred.go; the other creators are covered by
-   the direct check only).  Oracles, universally quantified in every theorem: ol = unicode.IsLetter on non-ASCII
+   types/enumtype.go, and the name test of deferred.Resolve, types/deferred.go), Model/ResolveObj.v (of the resolve
+   stage of user-declared Object types: the override check of members, types/annotatedmember.go + attribute.go, and
+   the parameter walk of a parameterized Object type, types/objecttypeextension.go; the other creators are covered
+   by the direct check only).  Oracles, universally quantified in every theorem: ol = unicode.IsLetter on non-ASCII
    runes, pf = strconv.ParseFloat, rx = regexp.Compile succeeds. *)
 From Coq Require Import ZArith NArith Bool List.
-From PcoreV Require Import Model.Base Model.Lexer Model.Parser Model.Resolve
-  Proofs.LexerProofs Proofs.LexerColumns Proofs.ParserProofs Proofs.ResolveProofs.
+From PcoreV Require Import Model.Base Model.Lexer Model.Parser Model.Resolve Model.ResolveObj
+  Proofs.LexerProofs Proofs.LexerColumns Proofs.ParserProofs Proofs.ResolveProofs Proofs.ResolveObjProofs.
 Import ListNotations.
 Open Scope Z_scope.
 
@@ -152,6 +154,44 @@ Theorem C06_deferred_name_test :
 Proof. exact deferred_target_spec. Qed.
 Print Assumptions C06_deferred_name_test.
 
+(* ---- the resolve stage: members of user-declared Object types ---------------------------------------------- *)
+
+(* An Object type that declares a member under the name of an inherited one (any two declarations: attribute of any
+   kind, constant, function, with or without final / override): the check never reaches the unchecked type assertion
+   member.(px.Attribute) of assertCanBeOverridden - the outcome is a reported error, "nothing inherited", or the type
+   comparison.  (Seeded change C06-m5 put the final test first: ResolveObjProofs.final_first_faults.) *)
+Theorem C06_member_override_total :
+  forall (parent : option decl) (d : decl), declare parent d <> OFault.
+Proof. exact declare_no_fault. Qed.
+Print Assumptions C06_member_override_total.
+
+(* What the check computes, without type assertions: the kind of member first, then final (a constant may override a
+   constant), then override. *)
+Theorem C06_member_override_reading :
+  forall a m : member,
+    assert_can_be_overridden a m =
+      if negb (feature_eqb (mb_feature a) (mb_feature m)) then OErr MemberMismatch
+      else if mb_final a && negb (is_attr a && mb_constant a && mb_constant m) then OErr OverrideOfFinal
+      else if negb (mb_override m) then OErr OverrideIsMissing
+      else OPass.
+Proof. exact assert_can_be_overridden_reading. Qed.
+Print Assumptions C06_member_override_reading.
+
+(* Name[arguments] for an Object type with n type parameters, any arguments (positional or named, any number): the
+   walk never indexes beyond the arguments (initParameters[idx]). *)
+Theorem C06_type_parameters_total :
+  forall (n : nat) (args : xargs), ext_initialize n args <> XFault.
+Proof. exact ext_initialize_no_fault. Qed.
+Print Assumptions C06_type_parameters_total.
+
+(* ... and it reads exactly the first n arguments: surplus arguments change nothing.  (Seeded change C06-m6 walked
+   the arguments instead: ResolveObjProofs.pos_loop_args_faults.) *)
+Theorem C06_type_parameters_surplus_ignored :
+  forall (n : nat) (l extra : list parg),
+    (n <= length l)%nat -> ext_initialize n (XPositional (l ++ extra)) = ext_initialize n (XPositional l).
+Proof. exact ext_initialize_surplus. Qed.
+Print Assumptions C06_type_parameters_surplus_ignored.
+
 (* ---- non-vacuity ----------------------------------------------------------------------------------- *)
 
 Definition no_letters (r : N) : bool := false.
@@ -208,4 +248,21 @@ Proof. vm_compute. reflexivity. Qed.
 Example C06_deferred_empty_name : deferred_target [] = DFunc [].
 Proof. vm_compute. reflexivity. Qed.
 Example C06_deferred_variable : deferred_target [36; 120]%N = DVar [120]%N.
+Proof. vm_compute. reflexivity. Qed.
+
+(* a function under the name of an inherited constant (B => Object[{parent => A, functions => {x => Callable}}] over
+   A => Object[{constants => {x => 1}}]): rejected for the kind of member; a constant over a constant passes on to
+   the type comparison; an attribute over a constant is rejected as an override of a final member *)
+Example C06_function_over_constant : declare (Some DcConst) (DcFunc false false) = OErr MemberMismatch.
+Proof. vm_compute. reflexivity. Qed.
+Example C06_constant_over_constant : declare (Some DcConst) DcConst = OPass.
+Proof. vm_compute. reflexivity. Qed.
+Example C06_attribute_over_constant : declare (Some DcConst) (DcAttr false None true) = OErr OverrideOfFinal.
+Proof. vm_compute. reflexivity. Qed.
+
+(* A[1, 2] for A with one type parameter: the parameter is set, the second argument is not looked at; A[default]:
+   a reported error *)
+Example C06_more_arguments_than_parameters : ext_initialize 1 (XPositional [PgGood; PgGood]) = XOk [0%nat].
+Proof. vm_compute. reflexivity. Qed.
+Example C06_only_default_arguments : ext_initialize 2 (XPositional [PgDefault]) = XErr EmptyParameterList.
 Proof. vm_compute. reflexivity. Qed.
